@@ -58,7 +58,8 @@ def values(rng, n):
     for _ in range(n):
         k = rng.random()
         if k < 0.3:
-            vals.append(rng.randint(0, 10**rng.randint(0, 18)))
+            x = rng.randint(0, 10**rng.randint(0, 18))
+            vals.append(int(float(x)))      # numbers are IEEE doubles: integers are kept only as exactly representable values
         elif k < 0.6:
             vals.append(rng.uniform(0, 10) * 10.0**rng.randint(-30, 30))
         elif k < 0.8:
